@@ -119,6 +119,7 @@ def statOf (fs : FS) (i : Ino) (n : Inode) : StatInfo :=
     rdev := n.rdev, mtime := n.mtime }
 
 def capKey : Str := b!"security.capability"
+def opaqueKey : Str := b!"trusted.overlay.opaque"
 
 def dropCap (xs : List (Str × List UInt8)) : List (Str × List UInt8) := xs.filter (fun e => e.1 ≠ capKey)
 
